@@ -3222,6 +3222,9 @@ class NameCheckVisitor(node_visitor.ReplacingNodeVisitor):
                 # probably a docstring
                 elif isinstance(parent, ast.Expr):
                     return
+                # the literal part of an f-string: the braces were written as {{ }}
+                elif isinstance(parent, ast.JoinedStr):
+                    return
                 # Probably a function that does template-like interpolation itself. In practice
                 # this covers our translation API (translate("hello {user}", user=...)).
                 elif isinstance(parent, ast.Call):
